@@ -37,6 +37,9 @@ def make_vars(case):
 
 def root_value(case, live, where):
     pname, j, key = where
+    if j == 'info':
+        i = live[pname + '.info']
+        return {k: i[k] for k in ('loader', 'is_loader_cascading', 'is_parent_cascading')}
     if pname == 'vars':
         return live['vars'][key]
     if pname == 'shortcut':
@@ -93,6 +96,19 @@ def run_case(case):
         for p in ('main', 'other'):
             with open(paths[p], 'w') as f:
                 f.write(texts[p])
+        if 'child' in texts:
+            # a pype child is found next to its parent
+            for p in ('other', 'main'):
+                paths['child'] = os.path.join(os.path.dirname(paths[p]), 'child.yaml')
+                with open(paths['child'], 'w') as f:
+                    f.write(texts['child'])
+            if case.get('two_loaders'):
+                alt = os.path.join(tmpdir, 'alt')
+                os.makedirs(alt)
+                with open(os.path.join(alt, 'child.yaml'), 'w') as f:
+                    f.write(L.emit_pipeline(case['child'] + [{'kind': 'set', 'in': [], 'pairs': [['viaWrapper', 1]]}],
+                                            turn, 'list'))
+                S.ALT_DIR[0] = alt
         if os.path.samefile(paths['main'], paths['other']):     # a case-insensitive file system
             import shutil
             shutil.rmtree(tmpdir, ignore_errors=True)
@@ -117,22 +133,53 @@ def run_case(case):
     try:
         loader = loader_cache.get_pype_loader(loader_name)
         names.setdefault('child', 'child')
-        defs = {p: loader.get_pipeline(names[p], None) for p in pipes}     # load ONCE
+        two = bool(case.get('two_loaders')) and loader_name is None and 'child' in texts
+        L.LOADER_SEEN[0] = loader_name or 'pypyr.loaders.file'
+
+        def load_all():
+            if two:     # the file loader's own objects (file_cache), no Loader asked yet
+                import pypyr.loaders.file as file_loader
+                return {p: file_loader.get_pipeline_definition(names[p], None) for p in pipes}
+            return {p: loader.get_pipeline(names[p], None) for p in pipes}
+        defs = load_all()     # load ONCE
+
+        def info_fields(info):
+            return {'pipeline_name': str(getattr(info, 'pipeline_name', None)), 'loader': info.loader,
+                    'parent': None if info.parent is None else str(info.parent),
+                    'is_loader_cascading': info.is_loader_cascading,
+                    'is_parent_cascading': info.is_parent_cascading}
 
         def live():
             d = {p: defs[p].pipeline for p in pipes}
+            for p in pipes:
+                d[p + '.info'] = info_fields(defs[p].info)
             d.update(vars=config.vars, shortcuts=config.shortcuts)
             return d
         S.GETDEFS[0] = live
         S.PRISTINE.clear()
         for p in pipes:
             S.PRISTINE[p] = S.canon(get_pipeline_yaml(io.StringIO(texts[p])))   # re-parse = pristine
+        for p in pipes:
+            # what the loader produces for this pipeline: an independent fresh load (file mode) /
+            # the info Loader._load_pipeline builds around a bare mapping (in-memory loader)
+            if loader_name is None:
+                import pypyr.loaders.file as file_loader
+                from pathlib import Path
+                fresh = file_loader.load_pipeline_from_file(Path(names[p] + '.yaml')).info
+                exp = info_fields(fresh)
+                exp['pipeline_name'] = str(defs[p].info.pipeline_name)
+                exp['parent'] = None if defs[p].info.parent is None else str(defs[p].info.parent)
+                exp['loader'] = 'pypyr.loaders.file'
+            else:
+                exp = {'pipeline_name': names[p], 'loader': loader_name, 'parent': None,
+                       'is_loader_cascading': True, 'is_parent_cascading': True}
+            S.PRISTINE[p + '.info'] = S.canon(exp)
         S.PRISTINE['vars'] = S.canon(make_vars(case))      # an independent re-build = pristine
         S.PRISTINE['shortcuts'] = S.canon(copy.deepcopy(config.shortcuts))
         loaded_ok = not S.changed()
         rts = L.roots(case)
 
-        def one_run(pname, tid=None):
+        def one_run(pname, tid=None, via=None):
             me = threading.get_ident()
             S.TRACES[me] = []
             before = S.changed()
@@ -147,7 +194,7 @@ def run_case(case):
                 if case.get('shortcut') and pname == 'main' and tid is None:
                     ctx = runner.run('c12sc', args_in=args)
                 else:
-                    ctx = runner.run(names[pname], args_in=args, dict_in=d, loader=loader_name)
+                    ctx = runner.run(names[pname], args_in=args, dict_in=d, loader=via or loader_name)
                 outcome = None
                 final = S.snapshot(ctx)
             except Exception as e:      # the run's own failure is an observation
@@ -166,10 +213,13 @@ def run_case(case):
                     'final': final, 'changed_before': before, 'changed_after': after,
                     'loads': list(vstate.LOADS)}
 
-        obs = {'loaded_ok': loaded_ok, 'runs': [], 'same_pipeline_object': True}
+        obs = {'loaded_ok': loaded_ok, 'runs': [], 'same_pipeline_object': True,
+               'loader': L.LOADER_SEEN[0], 'two_loaders': two}
         if not turn:
-            for pname in ORDER:
-                r = one_run(pname)
+            vias = ['c12_wraploader', None, None, 'c12_wraploader'] if two else [None] * 4
+            for pname, via in zip(ORDER, vias):
+                r = one_run(pname, via=via)
+                r['via'] = via
                 lv = live()
                 try:
                     r['defs'] = [S.to_tree(root_value(case, lv, w)) for w, _ in rts]
@@ -184,8 +234,7 @@ def run_case(case):
             config.vars = make_vars(case)
             config.shortcuts = copy.deepcopy(fresh_shortcuts)
             loader = loader_cache.get_pype_loader(loader_name)
-            for p in reversed(pipes):
-                defs[p] = loader.get_pipeline(names[p], None)
+            defs.update(load_all())
             obs['reverse_loaded_ok'] = not S.changed()
             obs['reverse'] = [one_run(p) for p in ('other', 'main', 'other')]
         else:
@@ -228,6 +277,8 @@ def run_case(case):
         # a final outcome for errors: context of a failed run is not returned by run(); fine
         return obs
     finally:
+        S.ALT_DIR[0] = None
+        L.LOADER_SEEN[0] = 'vloader'
         if tmpdir:
             import shutil
             import sys
